@@ -29,10 +29,15 @@ META = dict(
                 "are what the per-method unit tests never reach."),
     level_note=("Bounds: depth 1 full alphabet (8 k values, 7 factor tuples incl. negative and zero, 3 reference points, 8 malformed kinds), "
                 "depth 2 reduced alphabet in quick / wider in thorough, TLC simulation to depth 8, random real histories to length 10. 2-D and "
-                "3-D objects only, 6 cells. The aliasing pattern P1 (in-place odd quarter turn of a mesh another field uses) is excluded from "
+                "3-D objects, 6 cells. The aliasing pattern P1 (in-place odd quarter turn of a mesh another field uses) is excluded from "
                 "the exhaustive model by a guard and replayed separately as a known finding. Trusted: TLC, tlaval parser, harness/geomheap.py "
-                "projection (tolerance 1e-9 relative because cos(k pi/2) is inexact)."),
-    technique="TLA+ heap-with-references model (Geom.tla, C13.tla), TLC exhaustive + simulation; histories replayed into code; random code histories validated by TLC (C13Trace.tla)",
+                "projection (tolerance 1e-9 relative because cos(k pi/2) is inexact). Two further stages: C13X (spec/C13X.tla, "
+                "harness/c13x.py) - the two-form contract of one step at the edge of floating point (far vectors / reference points, "
+                "extreme factors, meshes of size 1e-200..1e150), every experiment validated by TLC; and spec/C13Core.tla - Apalache "
+                "discharges the inductive invariant lo < hi, n >= 1, cell*n = hi - lo of the 1-d integer core for unbounded arguments and "
+                "histories (2 obligations, reported in the evidence, not relied on). 1-d / 2-d / 3-d objects; plain-number arguments in 1-d; "
+                "identity steps (zero vector, factor one, k = 0, 4); results of copying steps must consist of new objects."),
+    technique="TLA+ heap-with-references model (Geom.tla, C13.tla), TLC exhaustive + simulation; histories replayed into code; random code histories validated by TLC (C13Trace.tla, C13X.tla); Apalache inductive invariant of the unbounded 1-d core (C13Core.tla)",
     design_ref="DESIGN.md section 7 C13, Appendix A.3/A.5",
 )
 
